@@ -22,6 +22,7 @@ from __future__ import annotations
 import concurrent.futures as cf
 import json
 import math
+import multiprocessing
 import os
 import random as _random
 import shutil
@@ -312,6 +313,15 @@ def term_terminal(c, r, cfg, res):
             f"{lib.qclist(std2_row(kind, res['std']))}")
 
 
+def term_stacked(c, r):
+    """the time-series loss called with a posterior that still carries stacked marginals (must fail: std container)."""
+    kind, d, T = c["kind"], c["d"], c["T"]
+    us = "[" + "; ".join(coq_data(kind, [0.0] * d) for _ in range(T)) + "]"
+    n = 1 if kind == "iso" else d
+    std2s = "[" + "; ".join(lib.qclist([Fr(1)] * n) for _ in range(T)) + "]"
+    return (f"lml_timeseries_run {coq_shape(c)} {lib.coq_nat(0)} {lib.coq_bool(True)} {us} {coq_post(r, stacked=r['checks']['stack'])} {std2s}")
+
+
 def term_remove(c, r):
     return f"remove_filtering_run {coq_shape(c)} {coq_post(r, stacked=r['checks']['stack'])}"
 
@@ -499,6 +509,30 @@ def exact_joint_value(blocks):
     return tot, scale, maha_sum, dets
 
 
+def spec_job(args):
+    """(b): exact direct joint density + its change under two random 2^-44 componentwise perturbations of the stored
+    posterior + the float64 evaluation.  Runs in a worker process."""
+    c, rr, cfg, resx, seedstr = args
+    sys.set_int_max_str_digits(0)
+    blocks = joint_blocks(c, rr, cfg, resx)
+    ej = exact_joint_value(blocks)
+    if ej is None:
+        return None
+    tot, scale, maha_sum, dets = ej
+    prng = _random.Random(seedstr)
+    sens_abs = 0.0
+    for _rep in range(2):
+        pmarg, pconds = perturbed_posterior(rr["post_marginal"], rr["post_conds"], prng)
+        ejp = exact_joint_value(joint_blocks(c, {"post_marginal": pmarg, "post_conds": pconds}, cfg, resx))
+        sens_abs = float("inf") if ejp is None else max(sens_abs, abs(ejp[0] - tot))
+    fl_tot, fl_cond = 0.0, 0.0
+    for (S, rcs) in blocks:
+        fv, fc = float_logpdf(S, rcs)
+        fl_tot += fv
+        fl_cond = max(fl_cond, fc)
+    return tot, scale, maha_sum, dets, sens_abs, fl_tot, fl_cond
+
+
 def float_logpdf(S, resid_cols):
     """float64 evaluation of sum_cols logN(resid; 0, S): Cholesky, eigenvalue fallback.  Returns (value, cond)."""
     Sf = np.array([[float(x) for x in row] for row in S], dtype=np.float64)
@@ -593,6 +627,23 @@ def main():
         if "checks" in r:
             emit.append(lambda c=c, r=r: term_remove(c, r))
             meta.append((ci, "remove", 0))
+            emit.append(lambda c=c, r=r: term_stacked(c, r))
+            meta.append((ci, "stacked", 0))
+    # (b) exact direct densities in worker processes (forked before any thread is started), concurrently with the model evaluation
+    spec_args = {}
+    for mi, (ci, what, k_) in enumerate(meta):
+        if what not in ("ts", "term"):
+            continue
+        c, r = cases[ci], ires[ci]
+        cfg = c["c12"]["timeseries" if what == "ts" else "terminal"][k_]
+        res = r["timeseries" if what == "ts" else "terminal"][k_]
+        if what == "ts":
+            rr, resx = {"post_marginal": r["post_marginal"], "post_conds": r["post_conds"]}, {"data": res["data"], "std": res["std"]}
+        else:      # terminal marginal + noise: the joint assembly with T = 1
+            rr, resx = {"post_marginal": r["margT"], "post_conds": []}, {"data": [res["data"]], "std": [res["std"]]}
+        spec_args[mi] = (c, rr, cfg, resx, f"{ck.seed}-{ci}-{what}-{k_}")
+    pool = cf.ProcessPoolExecutor(max_workers=14, mp_context=multiprocessing.get_context("fork"))
+    spec_fut = {mi: pool.submit(spec_job, a) for mi, a in spec_args.items()}
     t1 = time.time()
     mres = None
     try:
@@ -608,7 +659,7 @@ def main():
     stat = {"illconditioned_not_compared": 0, "model_skipped": 0, "float64_illconditioned": 0, "float64_compared": 0, "chain_rule_exact_ok": 0, "surrogate_ok": 0,
             "nonfinite_solutions_skipped": nonfinite}
     t2 = time.time()
-    for (ci, what, k_), v in zip(meta, mres or []):
+    for mi, ((ci, what, k_), v) in enumerate(zip(meta, mres or [])):
         c, r = cases[ci], ires[ci]
         kind, q, d = c["kind"], c["q"], c["d"]
         N, cc, nb = gen.shape_dims(kind, q, d)
@@ -639,6 +690,14 @@ def main():
             if not chk["terminal_ok"].startswith("value:"):
                 ck.report(f"C12.{kind}.input-checks", f"well-formed terminal-value call failed: {chk['terminal_ok']}", {"case": jc, "checks": chk})
             continue
+        if what == "stacked":
+            ck.count(f"stacked:{ci}", nontrivial=True, r_kind=kind)
+            if isinstance(v, str):
+                stat["model_skipped"] += 1
+            elif lib.decode_optQ(v) is not None:
+                ck.report("C12.model-eval", "the model accepts a posterior with stacked marginals, the implementation rejects it (std container check)",
+                          {"case": jc}, nofail=True)
+            continue
         cfg = c["c12"]["timeseries" if what == "ts" else "terminal"][k_]
         res = r["timeseries" if what == "ts" else "terminal"][k_]
         key = json.dumps({"case": jc, "what": what, "k": k_}, sort_keys=True)
@@ -655,30 +714,12 @@ def main():
         mv = lib.decode_optQ(v)
         T = len(res["data"]) if what == "ts" else 1
         div = T if (what == "ts" and cfg["avg"]) else 1
-        # ---------------- (b) direct joint density, exact; conditioning by an exact evaluation on a perturbed posterior
-        if what == "ts":
-            rr = r
-            resx = res
-        else:
-            rr = {"post_marginal": r["margT"], "post_conds": []}     # terminal marginal + noise: the joint assembly with T = 1
-            resx = {"data": [res["data"]], "std": [res["std"]]}
-        blocks = joint_blocks(c, rr, cfg, resx)
-        ej = exact_joint_value(blocks)
-        if ej is None:
+        # ---------------- (b) direct joint density, exact; conditioning by exact evaluations on perturbed posteriors
+        sj = spec_fut[mi].result()
+        if sj is None:
             ck.report("C12.spec-eval", "joint covariance not positive definite in exact arithmetic", {"case": jc, "cfg": cfg}, nofail=True)
             continue
-        tot, scale, maha_sum, dets = ej
-        prng = _random.Random(f"{ck.seed}-{ci}-{what}-{k_}")
-        sens_abs = 0.0
-        for _rep in range(2):
-            pmarg, pconds = perturbed_posterior(rr["post_marginal"], rr["post_conds"], prng)
-            ejp = exact_joint_value(joint_blocks(c, {"post_marginal": pmarg, "post_conds": pconds}, cfg, resx))
-            sens_abs = float("inf") if ejp is None else max(sens_abs, abs(ejp[0] - tot))
-        fl_tot, fl_cond = 0.0, 0.0
-        for (S, rcs) in blocks:
-            fv, fc = float_logpdf(S, rcs)
-            fl_tot += fv
-            fl_cond = max(fl_cond, fc)
+        tot, scale, maha_sum, dets, sens_abs, fl_tot, fl_cond = sj
         tot, scale = tot / div, scale / div
         # ---------------- (a) model terms
         model_terms = None
@@ -755,6 +796,7 @@ def main():
         else:
             stat["float64_illconditioned"] += 1
     t_cmp = time.time() - t2
+    pool.shutdown()
     if stat["float64_compared"] and worst["float64-vs-exact"] > 1e-6:
         ck.notes.append(f"float64 evaluation of the joint density deviates from the exact one by {worst['float64-vs-exact']:.3g} on a well-conditioned case")
     ck.hist["worst_rel_discrepancy"] = worst
@@ -762,7 +804,7 @@ def main():
     if os.environ.get("C12_DEBUG_PAIRS"):
         ck.hist["err_vs_sens"] = {"pairs": sorted(pairs, reverse=True)[:40]}
     ck.hist["bookkeeping"] = stat
-    ck.hist["timing_s"] = {"implementation": round(t_impl, 1), "model": round(t_model, 1), "exact_joint_and_compare": round(t_cmp, 1)}
+    ck.hist["timing_s"] = {"implementation": round(t_impl, 1), "model": round(t_model, 1), "exact_joint_wait_and_compare": round(t_cmp, 1)}
     ck.notes.append("restriction: observation noise std > 0 (std in [1e-6, 1e3]); std = 0 with a noise-free initial state gives a singular predicted "
                     "covariance, which needs a pseudo-inverse that the model does not certify")
     ck.notes.append("observation (not a C12 violation): a MarkovSequence that still carries stacked filtering marginals is rejected by loss_lml_timeseries "
